@@ -95,8 +95,12 @@ class Check(object):
         paths = []
         seen = set()
         for what, case in self.violations:
-            blob = json.dumps({"property": self.pid, "what": what, "case": case}, sort_keys=True, default=repr)
-            h = hashlib.sha1(blob.encode()).hexdigest()[:12]
+            core = json.dumps({"property": self.pid, "what": what, "case": case}, sort_keys=True, default=repr)
+            h = hashlib.sha1(core.encode()).hexdigest()[:12]
+            blob = json.dumps({"property": self.pid, "what": what, "case": case, "seed": self.seed, "tier": self.tier,
+                               "replay": "./check %s --replay <this file> re-runs the %s tier with seed %d against the current tree "
+                                         "and reports whether this exact case (hash %s) is still a violation" % (self.pid, self.tier, self.seed, h)},
+                              sort_keys=True, default=repr)
             if h in seen:
                 continue
             seen.add(h)
